@@ -324,3 +324,20 @@ def abstract_rejects(p: Project, ci, fi: FuncInfo, env: dict, must: bool, _depth
     return walk(fi.node.body, False) == REJ
 
 
+
+
+def cond_establishes_equal(e, const) -> Optional[bool]:
+    """What a (non-synthetic) condition event says about `<something> == const` on this path: True (known equal), False (known different),
+    None (the test is not about that constant).  Spelling-independent: ==, !=, `not (a == b)`, swapped operands, `in (const,)`."""
+    if e.kind != 'cond' or e.d.get('synthetic'):
+        return None
+    ops = e.d.get('operands')
+    if ops and ops[0] in ('Eq', 'NotEq', 'Is', 'IsNot'):
+        if ('const', const) in (ops[1], ops[2]):
+            eq = ops[0] in ('Eq', 'Is')
+            return eq == bool(e.polarity)
+    if ops and ops[0] in ('In', 'NotIn'):
+        c = ops[2]
+        if c is not None and c[0] in ('tuple', 'list') and tuple(c[1]) == (('const', const),):
+            return (ops[0] == 'In') == bool(e.polarity)
+    return None
